@@ -286,8 +286,18 @@ class V:
     """Construction variant: i = 0 the original, i = 1 the freshly constructed target of load_state_dict (different
     random initialisation, bounds, prior parameters — everything that is supposed to travel in the state dict)."""
 
-    def __init__(self, i, seed):
-        self.i, self.seed = i, seed
+    def __init__(self, i, seed, pool=None):
+        self.i, self.seed, self.pool = i, seed, pool
+
+    def arg(self, key, make):
+        """A tensor (or tuple of tensors) that the user script passes to constructors.  Normally `make()`; with a `pool`
+        (the SHARED-ARGUMENT phase) the script creates each argument once and passes the SAME object to every model it
+        builds — as `A = Model(Z); B = Model(Z)` does."""
+        if self.pool is None:
+            return make()
+        if key not in self.pool:
+            self.pool[key] = make()
+        return self.pool[key]
 
     def pick(self, a, b):
         return a if self.i == 0 else b
@@ -433,6 +443,11 @@ def _define_models():
         g[c.__name__] = c
 
 
+def _d(v, **kw):
+    """the data set of a family, as an argument of the user script (see `V.arg`)"""
+    return v.arg(("data",) + tuple(sorted(kw.items())), lambda: _data(v.seed, **kw))
+
+
 def _data(seed, n=10, d=2, ns=4, tasks=None):
     torch, _ = _import()
     gen = torch.Generator().manual_seed(1000 + seed)
@@ -458,7 +473,7 @@ def family(name, quick=False, **meta):
 def _exact(v, mean, covar, lik=None, mll="exact", **kw):
     torch, gpytorch = _import()
     _define_models()
-    X, y, Xs = kw.pop("data", None) or _data(v.seed)
+    X, y, Xs = kw.pop("data", None) or _d(v)
     lik = lik or gpytorch.likelihoods.GaussianLikelihood(
         noise_constraint=gpytorch.constraints.GreaterThan(v.pick(1e-3, 2e-2)))
     model = ExactModel(X, y, lik, mean, covar, **kw)   # noqa: F821
@@ -530,6 +545,22 @@ def _register_families():
         mean.register_prior("raw_constant_prior", P.NormalPrior(v.pick(0.1, 0.0), v.pick(0.5, 0.7)), "raw_constant")
         return _exact(v, mean, k)
 
+    @family("exact/tensor_hyperargs", quick=True)
+    def _(v):
+        # hyper-arguments given as TENSORS (bounds, prior parameters, active_dims): the script's tensors, see `V.arg`
+        T_ = lambda key, *vals: v.arg(key, lambda: torch.tensor(list(vals)) if len(vals) > 1 else torch.tensor(vals[0]))  # noqa: E731
+        base = K.RBFKernel(ard_num_dims=2, active_dims=v.arg("active_dims", lambda: torch.tensor([1, 0])),
+                           lengthscale_constraint=Cn.Interval(T_("ls_lb", v.pick(0.01, 0.05)), T_("ls_ub", v.pick(10.0, 6.0))),
+                           lengthscale_prior=P.LogNormalPrior(T_("ls_loc", v.pick(0.0, 0.3)), T_("ls_scale", v.pick(1.0, 0.7))))
+        k = K.ScaleKernel(base, outputscale_constraint=Cn.GreaterThan(T_("os_lb", v.pick(1e-4, 1e-3))),
+                          outputscale_prior=P.HorseshoePrior(T_("hs_scale", v.pick(0.3, 0.5))))
+        mean = M.ConstantMean(constant_prior=P.SmoothedBoxPrior(T_("sb_a", v.pick(-2.0, -3.0)), T_("sb_b", v.pick(2.0, 3.0)),
+                                                                sigma=T_("sb_sigma", v.pick(0.05, 0.1))),
+                              constant_constraint=Cn.Interval(T_("c_lb", v.pick(-5.0, -4.0)), T_("c_ub", v.pick(5.0, 6.0))))
+        lik = L.GaussianLikelihood(noise_prior=P.GammaPrior(T_("g_conc", v.pick(1.1, 1.3)), T_("g_rate", v.pick(0.05, 0.1))),
+                                   noise_constraint=Cn.GreaterThan(T_("n_lb", v.pick(1e-3, 2e-2))))
+        return _exact(v, mean, k, lik=lik)
+
     @family("exact/zero_mean_loo")
     def _(v):
         return _exact(v, M.ZeroMean(), K.ScaleKernel(K.RBFKernel()), mll="loo")
@@ -537,16 +568,26 @@ def _register_families():
     @family("exact/horseshoe_mvnprior")
     def _(v):
         k = K.ScaleKernel(K.RBFKernel(ard_num_dims=2, lengthscale_prior=P.MultivariateNormalPrior(
-            torch.tensor([v.pick(0.5, 0.8), 0.5]), covariance_matrix=torch.eye(2) * v.pick(1.0, 0.5))),
+            v.arg("mvn_loc", lambda: torch.tensor([v.pick(0.5, 0.8), 0.5])),
+            covariance_matrix=v.arg("mvn_cov", lambda: torch.eye(2) * v.pick(1.0, 0.5)))),
             outputscale_prior=P.HorseshoePrior(v.pick(0.1, 0.2)))
         return _exact(v, M.ConstantMean(), k)
 
     @family("exact/fixed_noise", quick=True)
     def _(v):
-        X, y, Xs = _data(v.seed)
-        noise = 0.01 + 0.02 * torch.rand(10, generator=torch.Generator().manual_seed(5 + v.seed))
+        X, y, Xs = _d(v)
+        noise = v.arg("noise", lambda: 0.01 + 0.02 * torch.rand(10, generator=torch.Generator().manual_seed(5 + v.seed)))
         lik = L.FixedNoiseGaussianLikelihood(noise, learn_additional_noise=True,
                                              noise_constraint=Cn.GreaterThan(v.pick(1e-4, 1e-3)))
+        b = _exact(v, M.ConstantMean(), K.ScaleKernel(K.RBFKernel()), lik=lik, data=(X, y, Xs))
+        b.extra["pred_noise"] = torch.full((4,), 0.02)
+        return b
+
+    @family("exact/fixed_noise_only")
+    def _(v):
+        X, y, Xs = _d(v)
+        noise = v.arg("noise", lambda: 0.02 + 0.02 * torch.rand(10, generator=torch.Generator().manual_seed(6 + v.seed)))
+        lik = L.FixedNoiseGaussianLikelihood(noise, learn_additional_noise=False)
         b = _exact(v, M.ConstantMean(), K.ScaleKernel(K.RBFKernel()), lik=lik, data=(X, y, Xs))
         b.extra["pred_noise"] = torch.full((4,), 0.02)
         return b
@@ -558,9 +599,10 @@ def _register_families():
 
     @family("exact/heteroskedastic")
     def _(v):
-        X, y, Xs = _data(v.seed)
+        X, y, Xs = _d(v)
         nl = L.GaussianLikelihood()
-        noise_model = ExactModel(X, torch.log(0.05 + 0.02 * X[:, 0]), nl, M.ConstantMean(), K.ScaleKernel(K.RBFKernel()))  # noqa: F821
+        noise_model = ExactModel(X, v.arg("noise_targets", lambda: torch.log(0.05 + 0.02 * X[:, 0])), nl,  # noqa: F821
+                                 M.ConstantMean(), K.ScaleKernel(K.RBFKernel()))
         lik = L._GaussianLikelihoodBase(noise_covar=L.HeteroskedasticNoise(noise_model))
         b = _exact(v, M.ConstantMean(), K.ScaleKernel(K.RBFKernel()), lik=lik, data=(X, y, Xs))
         b.extra["no_train_objective_args"] = True
@@ -568,8 +610,8 @@ def _register_families():
 
     @family("exact/dirichlet_classification")
     def _(v):
-        X, y, Xs = _data(v.seed)
-        labels = (y > y.median()).long()
+        X, y, Xs = _d(v)
+        labels = v.arg("labels", lambda: (y > y.median()).long())
         lik = L.DirichletClassificationLikelihood(labels, learn_additional_noise=True, dtype=torch.float64,
                                                   alpha_epsilon=0.05)
         bs = torch.Size([2])
@@ -580,8 +622,8 @@ def _register_families():
 
     @family("exact/arc_cylindrical")
     def _(v):
-        X, y, Xs = _data(v.seed)
-        X, Xs = X * 0.6, Xs * 0.6          # inside the unit ball
+        X, y, Xs = _d(v)
+        X, Xs = v.arg("data06", lambda: (X * 0.6, Xs * 0.6))          # inside the unit ball
         k = K.ScaleKernel(K.ArcKernel(K.MaternKernel(nu=2.5), angle_prior=P.GammaPrior(v.pick(0.5, 0.7), 1.0),
                                       radius_prior=P.GammaPrior(3.0, v.pick(2.0, 1.5)), ard_num_dims=2)) \
             + K.CylindricalKernel(3, K.RBFKernel(), alpha_prior=P.LogNormalPrior(v.pick(0.0, 0.2), 1.0))
@@ -589,16 +631,15 @@ def _register_families():
 
     @family("exact/hamming_imq")
     def _(v):
-        X, y, Xs = _data(v.seed, d=3)
+        X, y, Xs = _d(v, d=3)
         oh = lambda Z: torch.nn.functional.one_hot((Z * 4).floor().long().clamp(0, 3), 4).double().flatten(-2)  # noqa: E731
         k = K.ScaleKernel(K.HammingIMQKernel(vocab_size=4, alpha_prior=P.GammaPrior(v.pick(2.0, 3.0), 1.0)))
-        return _exact(v, M.ConstantMean(), k, data=(oh(X), y, oh(Xs)))
+        return _exact(v, M.ConstantMean(), k, data=v.arg("onehot", lambda: (oh(X), y, oh(Xs))))
 
     @family("exact/distributional_input")
     def _(v):
-        X, y, Xs = _data(v.seed, d=2)
-        Xd = torch.cat([X, -2.0 + 0.1 * X], -1)
-        Xsd = torch.cat([Xs, -2.0 + 0.1 * Xs], -1)
+        X, y, Xs = _d(v, d=2)
+        Xd, Xsd = v.arg("distr", lambda: (torch.cat([X, -2.0 + 0.1 * X], -1), torch.cat([Xs, -2.0 + 0.1 * Xs], -1)))
         return _exact(v, M.ConstantMean(), K.ScaleKernel(K.GaussianSymmetrizedKLKernel()), data=(Xd, y, Xsd))
 
     @family("exact/additive_structure")
@@ -629,11 +670,12 @@ def _register_families():
 
     @family("exact/grid_kernel")
     def _(v):
-        g = torch.linspace(0, 1, 6)
-        grid = torch.stack([g, g], -1)
-        Xg = gpytorch.utils.grid.create_data_from_grid([g, g])
-        yg = torch.sin(3 * Xg[:, 0]) + Xg[:, 1]
-        _, _, Xs = _data(v.seed)
+        def mk():
+            g = torch.linspace(0, 1, 6)
+            Xg_ = gpytorch.utils.grid.create_data_from_grid([g, g])
+            return torch.stack([g, g], -1), Xg_, torch.sin(3 * Xg_[:, 0]) + Xg_[:, 1]
+        grid, Xg, yg = v.arg("grid", mk)
+        _, _, Xs = _d(v)
         return _exact(v, M.ConstantMean(), K.GridKernel(K.RBFKernel(), grid=grid), data=(Xg, yg, Xs))
 
     @family("exact/kiss_gp", quick=True)
@@ -649,15 +691,15 @@ def _register_families():
 
     @family("exact/sgpr", quick=True)
     def _(v):
-        X, y, Xs = _data(v.seed)
+        X, y, Xs = _d(v)
         lik = L.GaussianLikelihood(noise_constraint=Cn.GreaterThan(v.pick(1e-3, 1e-2)))
-        Z = torch.rand(4, 2, generator=torch.Generator().manual_seed(v.torch_seed(5)))
+        Z = v.arg("Z", lambda: torch.rand(4, 2, generator=torch.Generator().manual_seed(v.torch_seed(5))))
         k = K.InducingPointKernel(K.ScaleKernel(K.RBFKernel()), inducing_points=Z, likelihood=lik)
         return _exact(v, M.ConstantMean(), k, lik=lik, data=(X, y, Xs))
 
     @family("exact/dkl")
     def _(v):
-        X, y, Xs = _data(v.seed)
+        X, y, Xs = _d(v)
         torch.manual_seed(v.torch_seed(6))
         lik = L.GaussianLikelihood()
         model = DKLModel(X, y, lik, K.ScaleKernel(K.RBFKernel()))      # noqa: F821
@@ -666,7 +708,7 @@ def _register_families():
     # ---------------------------------------------------------------- multitask exact
     @family("multitask/kronecker", quick=True)
     def _(v):
-        X, y, Xs = _data(v.seed, tasks=2)
+        X, y, Xs = _d(v, tasks=2)
         lik = L.MultitaskGaussianLikelihood(num_tasks=2, rank=1, noise_prior=P.GammaPrior(v.pick(1.1, 1.2), 0.05))
         mean = M.MultitaskMean(M.ConstantMean(), num_tasks=2)
         covar = K.MultitaskKernel(K.RBFKernel(), num_tasks=2, rank=1, task_covar_prior=P.LKJCovariancePrior(
@@ -675,7 +717,7 @@ def _register_families():
 
     @family("multitask/lcm_noninterleaved")
     def _(v):
-        X, y, Xs = _data(v.seed, tasks=2)
+        X, y, Xs = _d(v, tasks=2)
         lik = L.MultitaskGaussianLikelihood(num_tasks=2, rank=0, has_global_noise=False)
         mean = M.MultitaskMean([M.ConstantMean(), M.LinearMean(2)], num_tasks=2)
         covar = K.LCMKernel([K.RBFKernel(), K.MaternKernel(nu=1.5)], num_tasks=2, rank=1)
@@ -683,8 +725,8 @@ def _register_families():
 
     @family("multitask/hadamard_index")
     def _(v):
-        X, y, Xs = _data(v.seed)
-        idx = (torch.arange(10) % 2).long().unsqueeze(-1)
+        X, y, Xs = _d(v)
+        idx = v.arg("idx", lambda: (torch.arange(10) % 2).long().unsqueeze(-1))
         lik = L.GaussianLikelihood()
         tk = K.IndexKernel(num_tasks=2, rank=1, prior=P.LKJCovariancePrior(2, v.pick(1.0, 1.5), P.SmoothedBoxPrior(0.01, 3.0)),
                            var_constraint=Cn.GreaterThan(v.pick(1e-4, 1e-3)))
@@ -701,9 +743,9 @@ def _register_families():
         "linear_gradgrad": (lambda: M.LinearMeanGradGrad(2), lambda: K.RBFKernelGradGrad(), 5),
     }.items():
         def fam(v, mean_c=mean_c, kern_c=kern_c, width=width):
-            X, y, Xs = _data(v.seed, n=5)
-            gen = torch.Generator().manual_seed(77 + v.seed)
-            Y = torch.cat([y.unsqueeze(-1), 0.3 * torch.randn(5, width - 1, generator=gen)], -1)
+            X, y, Xs = _d(v, n=5)
+            Y = v.arg(("Y", width), lambda: torch.cat([y.unsqueeze(-1), 0.3 * torch.randn(
+                5, width - 1, generator=torch.Generator().manual_seed(77 + v.seed))], -1))
             lik = L.MultitaskGaussianLikelihood(num_tasks=width)
             b = _exact(v, mean_c(), K.ScaleKernel(kern_c()), lik=lik, data=(X, Y, Xs[:2]), multitask=True)
             if width == 5:      # RBFKernelGradGrad cannot be evaluated lazily on train x test blocks (not a C18 matter)
@@ -714,11 +756,12 @@ def _register_families():
     # ---------------------------------------------------------------- model list
     @family("modellist/independent", quick=True)
     def _(v):
-        X, y, Xs = _data(v.seed)
+        X, y, Xs = _d(v)
         ms = []
         for j in range(2):
             lik = L.GaussianLikelihood(noise_constraint=Cn.GreaterThan(v.pick(1e-3, 1e-2)))
-            ms.append(ExactModel(X, y + j, lik, M.ConstantMean(), K.ScaleKernel(K.RBFKernel() if j else K.MaternKernel())))  # noqa: F821
+            ms.append(ExactModel(X, v.arg(("y", j), lambda: y + j), lik, M.ConstantMean(),  # noqa: F821
+                                 K.ScaleKernel(K.RBFKernel() if j else K.MaternKernel())))
         model = gpytorch.models.IndependentModelList(*ms)
         lik = L.LikelihoodList(*[m.likelihood for m in ms])
         top = gpytorch.mlls.SumMarginalLogLikelihood(lik, model)
@@ -727,13 +770,15 @@ def _register_families():
     # ---------------------------------------------------------------- variational
     def approx(v, strategy, dist="cholesky", lik=None, mll="elbo", m=5, batch=None, whiten_kw=None, y_fn=None,
                mean=None, covar=None, **skw):
-        X, y, Xs = _data(v.seed)
+        X, y, Xs = _d(v)
         if y_fn:
-            y = y_fn(y)
-        Z = torch.rand(m, 2, generator=torch.Generator().manual_seed(v.torch_seed(7)))
+            y = v.arg("y_fn", lambda: y_fn(y))
         bs = torch.Size([]) if batch is None else torch.Size([batch])
-        if batch is not None:
-            Z = Z.unsqueeze(0).repeat(batch, 1, 1)
+
+        def mkZ():
+            Z_ = torch.rand(m, 2, generator=torch.Generator().manual_seed(v.torch_seed(7)))
+            return Z_ if batch is None else Z_.unsqueeze(0).repeat(batch, 1, 1)
+        Z = v.arg("Z", mkZ)
         dcls = {"cholesky": Vv.CholeskyVariationalDistribution, "meanfield": Vv.MeanFieldVariationalDistribution,
                 "delta": Vv.DeltaVariationalDistribution, "natural": Vv.NaturalVariationalDistribution,
                 "trilnatural": Vv.TrilNaturalVariationalDistribution}[dist]
@@ -770,6 +815,27 @@ def _register_families():
         return approx(v, lambda m, Z, vd: Vv.VariationalStrategy(m, Z, vd, learn_inducing_locations=False, jitter_val=1e-5),
                       mll="robust")
 
+    # non-default constructor flags that change what is registered (fixed inducing locations = a buffer holding the
+    # caller's tensor values; no learned extra noise; no task noise): state dict keys are the same, ownership differs
+    @family("svgp/unwhitened_fixed_inducing")
+    def _(v):
+        return approx(v, lambda m, Z, vd: Vv.UnwhitenedVariationalStrategy(m, Z, vd, learn_inducing_locations=False))
+
+    @family("svgp/whitened_fixed_inducing", quick=True)
+    def _(v):
+        return approx(v, lambda m, Z, vd: Vv.VariationalStrategy(m, Z, vd, learn_inducing_locations=False), dist="meanfield")
+
+    @family("svgp/ciq_fixed_inducing")
+    def _(v):
+        return approx(v, lambda m, Z, vd: Vv.CiqVariationalStrategy(m, Z, vd, learn_inducing_locations=False), dist="natural")
+
+    @family("svgp/batch_decoupled_fixed_inducing")
+    def _(v):
+        return approx(v, lambda m, Z, vd: Vv.BatchDecoupledVariationalStrategy(m, Z, vd, learn_inducing_locations=False,
+                                                                               mean_var_batch_dim=-1),
+                      mean=M.ConstantMean(batch_shape=torch.Size([2])),
+                      covar=K.ScaleKernel(K.RBFKernel(batch_shape=torch.Size([2])), batch_shape=torch.Size([2])))
+
     @family("svgp/ciq")
     def _(v):
         return approx(v, lambda m, Z, vd: Vv.CiqVariationalStrategy(m, Z, vd, learn_inducing_locations=True), dist="natural")
@@ -784,7 +850,7 @@ def _register_families():
     def _(v):
         def mk(m, Z, vd):
             covar_vs = Vv.VariationalStrategy(m, Z, Vv.CholeskyVariationalDistribution(5), learn_inducing_locations=True)
-            Z2 = torch.rand(4, 2, generator=torch.Generator().manual_seed(v.torch_seed(9)))
+            Z2 = v.arg("Z2", lambda: torch.rand(4, 2, generator=torch.Generator().manual_seed(v.torch_seed(9))))
             return Vv.OrthogonallyDecoupledVariationalStrategy(covar_vs, Z2, Vv.DeltaVariationalDistribution(4))
         b = approx(v, mk)
         b.extra["no_prior"] = True      # prior=True is not supported by this strategy (it forwards to the base strategy)
@@ -811,7 +877,7 @@ def _register_families():
     def _(v):
         # the inducing points of VNNGP are data (not learned): like training inputs they are supplied again when
         # the fresh model is constructed, and the neighbour structure is derived from them by the constructor
-        Zd = torch.rand(8, 2, generator=torch.Generator().manual_seed(91 + v.seed))
+        Zd = v.arg("Zd", lambda: torch.rand(8, 2, generator=torch.Generator().manual_seed(91 + v.seed)))
 
         def mk(m, Z, vd):
             return Vv.NNVariationalStrategy(m, Zd, Vv.MeanFieldVariationalDistribution(8), k=3, training_batch_size=4,
@@ -864,19 +930,21 @@ def _register_families():
 
     @family("deep/two_layer")
     def _(v):
-        X, y, Xs = _data(v.seed)
+        X, y, Xs = _d(v)
         g = torch.Generator().manual_seed(v.torch_seed(11))
         torch.manual_seed(v.torch_seed(12))
-        model = DeepModel(torch.rand(4, 2, generator=g), torch.rand(4, 2, generator=g))    # noqa: F821
+        Z1, Z2 = v.arg("Zs", lambda: (torch.rand(4, 2, generator=g), torch.rand(4, 2, generator=g)))
+        model = DeepModel(Z1, Z2)    # noqa: F821
         top = gpytorch.mlls.DeepApproximateMLL(gpytorch.mlls.VariationalELBO(model.likelihood, model, num_data=10))
         return Bundle(top, model, model.likelihood, X, y, Xs, "deep")
 
     @family("deep/dspp_predictive_ll")
     def _(v):
-        X, y, Xs = _data(v.seed)
+        X, y, Xs = _d(v)
         g = torch.Generator().manual_seed(v.torch_seed(11))
         torch.manual_seed(v.torch_seed(12))
-        model = DSPPModel(torch.rand(4, 2, generator=g), torch.rand(4, 2, generator=g))    # noqa: F821
+        Z1, Z2 = v.arg("Zs", lambda: (torch.rand(4, 2, generator=g), torch.rand(4, 2, generator=g)))
+        model = DSPPModel(Z1, Z2)    # noqa: F821
         top = gpytorch.mlls.DeepPredictiveLogLikelihood(model.likelihood, model, num_data=10, beta=0.5)
         return Bundle(top, model, model.likelihood, X, y, Xs, "deep")
 
@@ -1046,7 +1114,7 @@ def observe(b, obs_seed=12345):
     return out, None
 
 
-def _close(a, b):
+def _close(a, b, rtol=1e-9):
     import torch
     if a.shape != b.shape:
         return False, float("inf"), False
@@ -1059,7 +1127,7 @@ def _close(a, b):
     bit = bool(torch.equal(a2, b2))
     err = float((a2 - b2).abs().max()) if a2.numel() else 0.0
     scale = 1.0 + float(a2.abs().max()) if a2.numel() else 1.0
-    return err <= 1e-9 * scale, err, bit
+    return err <= rtol * scale, err, bit
 
 
 def canonical_history(tier):
@@ -1073,23 +1141,71 @@ def random_history(rng, n):
     return h
 
 
-def build_original(fname, seed, ops):
+def build_original(fname, seed, ops, pool=None, env=None):
+    """Construct the original (under default settings) and run the history — inside the settings environment `env`
+    (a factory of context managers) when one is given: the object is first USED under non-default global settings."""
+    import contextlib
     torch, gpytorch = _import()
     _register_families()
     fn = FAMILIES[fname][0]
-    b = fn(V(0, seed))
+    b = fn(V(0, seed, pool))
     b.top.train()
     t0 = _attr_snapshot(b.top)
     t0 = {p: d for p, (m, d) in t0.items()}
-    for i, op in enumerate(ops):
-        apply_op(b, op, seed * 1000 + i)
+    if env is not None and getattr(env, "dtype", None) is not None:
+        _history_in_dtype(b, ops, seed, env.dtype)
+        return b, t0
+    with contextlib.ExitStack() as st:
+        for cm in (env() if env is not None else []):
+            st.enter_context(cm)
+        for i, op in enumerate(ops):
+            apply_op(b, op, seed * 1000 + i)
     return b, t0
 
 
-def build_fresh(fname, seed, salt=0):
+class DtypeEnv:
+    """`environment` of the used-under phase that is not a setting: the object is first USED in another floating
+    point type (model and data converted, torch's default dtype switched) and converted back afterwards."""
+
+    def __init__(self, dtype):
+        self.dtype = dtype
+
+    def __call__(self):
+        return []
+
+
+def _history_in_dtype(b, ops, seed, dtype):
+    torch, gpytorch = _import()
+
+    def cast(t):
+        return t.to(dtype) if isinstance(t, torch.Tensor) and t.is_floating_point() else t
+    # `data` attributes (training data, fixed noise, quadrature nodes: constructor-supplied tensors that `_apply` moves)
+    # are rounded by the conversion like everything else, but no state dict carries them: the caller supplies them
+    # again (ASSUMPTIONS), so the originals are put back after the round trip
+    allow = _allow_list()
+    data_attrs = [(m, a, v) for m in b.top.modules() for a, v in list(m.__dict__.items())
+                  if (allow.get((_owner_of_attr(m, a), a)) or ("",))[0] == "data"]
+    torch.set_default_dtype(dtype)
+    try:
+        b.top.to(dtype)
+        b2 = Bundle(b.top, b.model, b.likelihood, cast(b.X), cast(b.y), cast(b.Xs), b.kind,
+                    {k: cast(x) for k, x in b.extra.items()})
+        for i, op in enumerate(ops):
+            apply_op(b2, op, seed * 1000 + i)
+    finally:
+        torch.set_default_dtype(torch.float64)
+        b.top.to(torch.float64)
+        for m, a, v in data_attrs:
+            m.__dict__[a] = v
+
+
+def build_fresh(fname, seed, salt=0, variant=1):
+    variant = 0 if variant == "0p" else variant
+    """A freshly constructed model with perturbed parameters; variant 1 = constructed DIFFERENTLY (other bounds, prior
+    parameters, inducing points …), variant 0 = the original's constructor arguments supplied again."""
     torch, gpytorch = _import()
     fn = FAMILIES[fname][0]
-    f = fn(V(1, seed))
+    f = fn(V(variant, seed))
     f.top.train()
     torch.manual_seed(seed * 31 + 17 + salt)
     with torch.no_grad():
@@ -1105,7 +1221,7 @@ def build_fresh(fname, seed, salt=0):
 MECHS = ("state_dict", "pickle", "deepcopy")
 
 
-def restore(b, fname, seed, mech):
+def restore(b, fname, seed, mech, variant=1):
     """-> (restored bundle, fresh-before-load bundle or None).  Raises on failure of the mechanism itself."""
     torch, gpytorch = _import()
     if mech == "state_dict":
@@ -1113,7 +1229,7 @@ def restore(b, fname, seed, mech):
         torch.save(b.top.state_dict(), buf)
         buf.seek(0)
         sd = torch.load(buf)
-        f = build_fresh(fname, seed)
+        f = build_fresh(fname, seed, variant=variant)
         f.top.load_state_dict(sd)
         f.top.train(b.top.training)
         return f
@@ -1402,18 +1518,18 @@ def _mutate(bundle, salt):
 
 def _reference(fname, seed, variant, src):
     """An independent, newly constructed model carrying `src`'s CURRENT state (shares nothing with anybody)."""
-    ref = build_fresh(fname, seed, salt=11) if variant == 1 else FAMILIES[fname][0](V(0, seed))
+    ref = build_fresh(fname, seed, salt=11, variant=variant) if variant in (1, "0p") else FAMILIES[fname][0](V(0, seed))
     ref.top.load_state_dict(copy.deepcopy(src.top.state_dict()))
     ref.top.train(src.top.training)
     return ref
 
 
-def _cmp_obs(a, b_):
+def _cmp_obs(a, b_, rtol=1e-9):
     """-> list of (key, err) that differ"""
     out = []
     for k, v in a.items():
         if k in b_:
-            ok, err, _ = _close(v, b_[k])
+            ok, err, _ = _close(v, b_[k], rtol)
             if not ok:
                 out.append((k, err))
     return out
@@ -1559,8 +1675,11 @@ def _diff_attrs(fail, ctx, fname, ops, mech, snap_o, snap_r, t0, pred_ok=True):
                         break
             if tag is not None and tag[0] in ("cache", "cacheTag") and not pred_ok:
                 tag = None      # a pure cache is only accepted when the restored model predicts identically
+            # `config` = "set by the user through a public setter, never by train / eval / predict": the histories call no
+            # setter, so a config attribute that CHANGED during one is state that the object acquired by being used
+            # (a getter memoising a global default into it) — reported like any other unclassified attribute
             if tag is not None and (tag[0] in ("cache", "cacheTag", "scratch", "dynamic") or
-                                    (mech == "state_dict" and tag[0] in ("derived", "cursor", "config", "data"))):
+                                    (mech == "state_dict" and tag[0] in ("derived", "cursor", "data"))):
                 ctx.count(f"not-carried-allowed:{tag[0]}")
                 _state.setdefault("allowed_seen", {}).setdefault(f"{owner}.{a}", set()).add(mech)
                 continue
@@ -1663,6 +1782,382 @@ def _run_driver(ctx, driver):
 
 
 # ====================================================================================================
+# global settings: which ones a family consults (spy), non-default environments, the USED-UNDER phase
+# ====================================================================================================
+
+# non-default constructor arguments of the value-type settings (anything not listed: generic rule in `_env_factory`)
+NONDEFAULT = {
+    "max_cholesky_size": (3,), "max_eager_kernel_size": (2,), "max_cg_iterations": (60,), "max_preconditioner_size": (3,),
+    "max_root_decomposition_size": (5,), "max_lanczos_quadrature_iterations": (5,), "min_preconditioning_size": (2,),
+    "cg_tolerance": (0.3,), "eval_cg_tolerance": (0.3,), "minres_tolerance": (1e-2,), "preconditioner_tolerance": (1e-1,),
+    "num_contour_quadrature": (7,), "num_gauss_hermite_locs": (7,), "num_likelihood_samples": (4,), "num_trace_samples": (3,),
+    "cholesky_max_tries": (2,), "tridiagonal_jitter": (1e-3,), "observation_nan_policy": ("mask",),
+    "fast_computations": (False, False, False), "fast_pred_var": (True, 2),
+}
+SETTINGS_SKIP = {
+    "verbose_linalg": "only switches debug logging of linear_operator on",
+    "linalg_dtypes": "composite of _linalg_dtype_symeig / _linalg_dtype_cholesky (exercised through those)",
+    "checkpoint_kernel": "deprecated beta feature: entering it with a non-zero split size only raises a DeprecationWarning",
+}
+
+
+# internal flag classes that are set only through a composite public setting
+SETTING_PARTS = {"_fast_covar_root_decomposition": "fast_computations", "_fast_log_prob": "fast_computations",
+                 "_fast_solves": "fast_computations"}
+
+
+def _settings_classes():
+    """name -> class for every global setting gpytorch exposes (own + re-exported linear_operator ones + beta features)"""
+    torch, gpytorch = _import()
+    out = {}
+    for mod in (gpytorch.settings, gpytorch.beta_features):
+        for n, c in vars(mod).items():
+            if inspect.isclass(c) and (not n.startswith("_") or n in ("_linalg_dtype_cholesky", "_linalg_dtype_symeig")) \
+                    and hasattr(c, "__enter__"):
+                out.setdefault(n, c)
+    return out
+
+
+class SettingsSpy:
+    """Records which settings classes are consulted (classmethods `on/off/is_default/value/…` of the settings base
+    classes, gpytorch's and linear_operator's) while active; `self.current` names the bucket (the family)."""
+
+    def __init__(self):
+        self.seen, self.current, self._undo = {}, None, []
+
+    def __enter__(self):
+        done = set()
+        for name, c in _settings_classes().items():
+            for k in c.__mro__:
+                if k is object or k in done:
+                    continue
+                done.add(k)
+                for a, f in list(vars(k).items()):
+                    if isinstance(f, classmethod) and not a.startswith("_set"):
+                        self._wrap(k, a, f)
+        return self
+
+    def _wrap(self, k, a, f):
+        inner, spy = f.__func__, self
+
+        def wrapper(cls, *args, **kw):
+            if spy.current is not None:
+                spy.seen.setdefault(spy.current, set()).add(cls.__name__)
+            return inner(cls, *args, **kw)
+        wrapper.__name__ = getattr(inner, "__name__", a)
+        setattr(k, a, classmethod(wrapper))
+        self._undo.append((k, a, f))
+
+    def __exit__(self, *exc):
+        for k, a, f in reversed(self._undo):
+            setattr(k, a, f)
+        self._undo = []
+        return False
+
+
+def _env_factory(name):
+    """-> zero-argument callable returning the list of context managers of a NON-DEFAULT instance of setting `name`,
+    or None when no non-default instance can be formed."""
+    torch, gpytorch = _import()
+    c = _settings_classes().get(name)
+    if c is None or name in SETTINGS_SKIP:
+        return None
+    if name in NONDEFAULT:
+        return lambda: [c(*NONDEFAULT[name])]
+    if any(k.__name__ == "_feature_flag" for k in c.__mro__):
+        return lambda: [c(not c.on())]
+    if any(k.__name__ == "_dtype_value_context" for k in c.__mro__):
+        vals = {k_: getattr(c, f"_global_{k_}_value", None) for k_ in ("float", "double", "half")}
+        if all(isinstance(x, (int, float)) for x in vals.values() if x is not None):
+            kw = {f"{k_}_value": (x * 1e4 if x else 1e-2) for k_, x in vals.items() if x is not None}
+            return lambda: [c(**kw)]
+        return None
+    if any(k.__name__ == "_value_context" for k in c.__mro__):
+        val = c.value()
+        if isinstance(val, bool):
+            return lambda: [c(not val)]
+        if isinstance(val, int):
+            return lambda: [c(max(1, val // 3))]
+        if isinstance(val, float):
+            return lambda: [c(val * 10)]
+        if isinstance(val, torch.dtype):        # dtype-valued (precision of internal factorisations): the other one
+            return lambda: [c(torch.float32 if val == torch.float64 else torch.float64)]
+    return None
+
+
+def check_used_under(ctx, fname, seed, ops, sname, env, report=True):
+    """USED-UNDER phase: the original is constructed under default settings, its history runs INSIDE the non-default
+    environment, then the environment is left and the caches are dropped at the documented invalidation point
+    (train() / eval()).  From there on the object must behave like a model that never saw the environment: the
+    state_dict -> fresh-model restoration, and its own pickle / deepcopy, evaluated under the defaults."""
+    torch, gpytorch = _import()
+    fails = []
+
+    def fail(key, what, **extra):
+        fails.append(key)
+        if report:
+            ctx.fail(key, what, dict({"family": fname, "seed": seed, "ops": list(ops), "phase": "used-under",
+                                      "setting": sname}, **extra))
+    try:
+        b, t0 = build_original(fname, seed, ops, env=env)
+    except Exception:
+        ctx.count("used_under_history_failed")        # the environment breaks the history itself: not a persistence matter
+        _state.setdefault("env_failed", {}).setdefault(sname, []).append(fname)
+        return None
+    mode = b.top.training
+    b.top.train()
+    b.top.train(mode)           # documented invalidation point: caches computed inside the environment are dropped
+    if any(n.endswith("variational_params_initialized") and not bool(t.item()) for n, t in b.top.named_buffers()):
+        return None
+    try:
+        # the fresh model is given the original's constructor arguments again (other parameter values): what the main
+        # phase reports about state that lives in constructor arguments (known findings) is not repeated here
+        r = restore(b, fname, seed, "state_dict", variant=0)
+    except Exception as e:
+        fail(f"used-under:{sname}:{fname}:state_dict:error", f"{fname} used under {sname}: state_dict -> fresh model raised "
+             f"{type(e).__name__}: {str(e)[:200]}", mechanism="state_dict")
+        return fails
+    snap_o, snap_r = _attr_snapshot(b.top), _attr_snapshot(r.top)
+    obs_o, err_o = observe(b)
+    obs_r, err_r = observe(r)
+    if err_o is not None or err_r is not None:
+        e_ = err_o or err_r
+        if any(t in e_[1] for t in NUMERICAL):
+            ctx.count("discarded_numerical")
+            return None
+        if err_o is None:
+            fail(f"used-under:{sname}:{fname}:state_dict:restored-unusable", f"{fname} used under {sname}: the restored model "
+                 f"fails at {e_[0]}: {e_[1]}", mechanism="state_dict")
+        else:
+            ctx.count("used_under_history_failed")
+        return fails
+    # after a float32 episode, quantities DERIVED from the inputs while in float32 (dynamic interpolation grid bounds)
+    # keep float32 rounding (relative 6e-8) until they are recomputed: 1e-5 there; a sticking float32 default moves
+    # results by >= 1e-4.  Settings environments: exact comparison as everywhere else.
+    bad = _cmp_obs(obs_o, obs_r, 1e-5 if sname.startswith("dtype=") else 1e-9)
+    ctx.count("used_under_checks")
+    for k in obs_o:
+        ctx.count("observations")
+    for k, err in bad:
+        fail(f"used-under:{sname}:{fname}:state_dict:{k}", f"{fname}: the history {list(ops)} ran inside "
+             f"{'settings.' + sname + '(<non-default>)' if '=' not in sname else sname}; after leaving it (and train()/eval()) the model's {k} differs by {err:.3e} "
+             f"from a fresh model that loaded its state_dict — the object kept state acquired under the setting",
+             mechanism="state_dict", observable=k, err=err)
+    _diff_attrs(fail, ctx, fname, ops, "state_dict", snap_o, snap_r, t0, pred_ok=not bad)
+    ctx.case(f"{fname}|{','.join(ops)}|used-under:{sname}", nontrivial=True,
+             sample={"family": fname, "ops": list(ops), "setting": sname, "observables": len(obs_o)})
+    return fails
+
+
+# ====================================================================================================
+# SHARED-ARGUMENT phase: two models constructed from the SAME argument tensors
+# ====================================================================================================
+
+def _pool_tensors(pool):
+    import torch
+    out = {}
+    for k, v in pool.items():
+        name = k if isinstance(k, str) else "-".join(str(x[0] if isinstance(x, tuple) else x) for x in k)
+        many = isinstance(v, (tuple, list))
+        for i, t in enumerate(v if many else [v]):
+            if isinstance(t, torch.Tensor):
+                out[f"{name}.{i}" if many else name] = t
+    return out
+
+
+def check_shared_args(ctx, fname, seed, ops, report=True):
+    """`A = Model(args); B = Model(args)` with the same tensor OBJECTS (as a script building "a fresh model of the same
+    architecture" does).  A runs a history and is check-pointed; a check-point with OTHER values is loaded into B and
+    B is trained.  Then (1) A's observations (caches rebuilt) and A's state dict must not have moved, (2) the caller's
+    argument tensors must be untouched, (3) B must agree with an independent model carrying B's state."""
+    torch, gpytorch = _import()
+    fails = []
+
+    def fail(key, what, **extra):
+        fails.append(key)
+        if report:
+            ctx.fail(key, what, dict({"family": fname, "seed": seed, "ops": list(ops), "phase": "shared-args"}, **extra))
+    pool = {}
+    try:
+        A, _ = build_original(fname, seed, ops, pool=pool)
+        B = FAMILIES[fname][0](V(0, seed, pool))
+        B.top.train()
+    except Exception as e:
+        if not _numerical(e):
+            ctx.broke("correspondence", f"family:{fname}", f"shared-argument construction failed: {type(e).__name__}: {e}")
+        return None
+    if any(n.endswith("variational_params_initialized") and not bool(t.item()) for n, t in A.top.named_buffers()):
+        ctx.count("shared_args_skipped_lazy_init_pending")
+        return None
+    args0 = {k: t.detach().clone() for k, t in _pool_tensors(pool).items()}
+    modeA = A.top.training
+    obs_a0, err_a0 = observe(A)
+    A.top.train(modeA)
+    sd_a0 = {k: t.detach().clone() for k, t in A.top.state_dict().items()}
+    if err_a0 is not None:
+        if not any(t in err_a0[1] for t in NUMERICAL):
+            ctx.broke("correspondence", f"family:{fname}", f"shared-argument phase: observing A failed at {err_a0[0]}: {err_a0[1]}")
+        return None
+    try:
+        other = build_fresh(fname, seed, salt=23)           # constructed from its OWN arguments, other values
+        B.top.load_state_dict(copy.deepcopy(other.top.state_dict()))
+        _mutate(B, 5000)
+    except Exception as e:
+        if _numerical(e):
+            ctx.count("discarded_numerical")
+            return None
+        fail(f"coupled:{fname}:shared-args:error", f"{fname}: loading a check-point into / training the twin built from the "
+             f"same argument tensors raised {type(e).__name__}: {str(e)[:200]}")
+        return fails
+    ctx.count("shared_args_checks")
+    # (2) the caller's tensors
+    for k, t in _pool_tensors(pool).items():
+        if not torch.equal(torch.nan_to_num(t.detach().double()), torch.nan_to_num(args0[k].double())):
+            fail(f"argument-mutated:{fname}:{k}",
+                 f"{fname}: after load_state_dict into / training of model B the CALLER's constructor argument {k} changed "
+                 f"by {float((t.detach().double() - args0[k].double()).abs().max()):.3e} — the module kept the caller's "
+                 f"tensor itself (no clone) and writes into it", argument=k)
+    # (1) A must not have moved
+    sd_a1 = A.top.state_dict()
+    for k, t in sd_a0.items():
+        if k in sd_a1 and not torch.equal(torch.nan_to_num(sd_a1[k].detach().double()), torch.nan_to_num(t.double())):
+            fail(f"coupled:{fname}:shared-args:state_dict", f"{fname}: models A and B were constructed from the same argument "
+                 f"tensors; loading a check-point into B / training B changed A's state_dict entry {k} by "
+                 f"{float((sd_a1[k].detach().double() - t.double()).abs().max()):.3e}", key_name=k)
+            break
+    A.top.train()
+    A.top.train(modeA)          # rebuild A's caches from its (supposedly untouched) state
+    obs_a1, err_a1 = observe(A)
+    if err_a1 is None:
+        for k, err in _cmp_obs(obs_a0, obs_a1):
+            fail(f"coupled:{fname}:shared-args:original-follows-twin:{k}", f"{fname}: models A and B were constructed from the "
+                 f"same argument tensors; after a check-point was loaded into B and B was trained, A's {k} moved by {err:.3e} "
+                 f"although nothing was done to A", observable=k, err=err)
+    # (3) B is what its own state says
+    try:
+        ref = _reference(fname, seed, "0p", B)       # B's constructor arguments (variant 0), other parameter values
+        obs_b, err_b = observe(B)
+        obs_f, err_f = observe(ref)
+        if err_b is None and err_f is None:
+            for k, err in _cmp_obs(obs_f, obs_b):
+                fail(f"divergence:{fname}:shared-args:{k}", f"{fname}: model B (built from the same argument tensors as A, then "
+                     f"loaded and trained) differs in {k} by {err:.3e} from an independent model carrying B's state",
+                     observable=k, err=err)
+    except Exception as e:
+        if not _numerical(e):
+            fail(f"divergence:{fname}:shared-args:error", f"{fname}: building the reference of B raised {type(e).__name__}: {e}")
+    ctx.case(f"{fname}|{','.join(ops)}|shared-args", nontrivial=True,
+             sample={"family": fname, "ops": list(ops), "phase": "shared-args", "arguments": sorted(args0)})
+    return fails
+
+
+# ====================================================================================================
+# dynamic read sets (`__getattribute__` spy) vs the static read table of translator G2p
+# ====================================================================================================
+
+class ReadSpy:
+    """While active, every attribute load `obj.<name>` on a torch module that is executed by a frame of a package
+    method whose `self` IS that object is recorded as (defining class, method, attribute) — the dynamic counterpart of
+    the `self.<attr>` loads that translator G2p collects from the AST."""
+
+    def __init__(self):
+        self.reads = {}         # (relfile, qualname head) -> {attr}
+        self._codes = {}
+
+    def __enter__(self):
+        import torch
+        root = os.path.join(os.path.realpath(C.REPO), "gpytorch") + os.sep
+        reads, codes = self.reads, self._codes
+        oga, getframe = object.__getattribute__, sys._getframe
+
+        def classify(code):
+            fn = os.path.realpath(code.co_filename)
+            if not fn.startswith(root) or "/gpytorch/test/" in fn:
+                return None
+            q = code.co_qualname.split(".<locals>")[0]
+            if "." not in q:
+                return None             # a module-level function (memoize helpers …), not a method
+            first = code.co_varnames[0] if code.co_argcount else None
+            nested = ".<locals>" in code.co_qualname
+            return (os.path.relpath(fn, os.path.realpath(C.REPO)), q, first, nested)
+
+        def spy(self_, name):
+            f = getframe(1)
+            code = f.f_code
+            info = codes.get(code, 0)
+            if info == 0:
+                info = codes[code] = classify(code)
+            if info is not None:
+                rel, q, first, nested = info
+                loc = f.f_locals
+                if (first is not None and not nested and loc.get(first) is self_) or (nested and loc.get("self") is self_):
+                    reads.setdefault((rel, q), set()).add(name)
+            return oga(self_, name)
+        torch.nn.Module.__getattribute__ = spy
+        return self
+
+    def __exit__(self, *exc):
+        import torch
+        try:
+            del torch.nn.Module.__getattribute__
+        except AttributeError:
+            pass
+        return False
+
+
+def check_read_sets(ctx, spy):
+    """dynamic ⊆ static: every `self.<attr>` load observed on a real instance must be in the static read set of the
+    method that executed it (or that method is an audited computed-name reader).  A mismatch is a broken tie."""
+    tab = _table()
+    if not tab:
+        return
+    by_cls = {(d["file"], d["pyname"]): (n, d) for n, d in tab.items()}
+    # mix-in classes (not Modules themselves) are folded into the classes that inherit them: look methods up by name
+    folded = {}
+    for n, d in tab.items():
+        for m, r in d["reads"].items():
+            folded.setdefault(m, set()).update(r)
+    bad, nreads, nmeth = [], 0, 0
+    for (rel, q), attrs in sorted(spy.reads.items()):
+        cname, meth = q.rsplit(".", 1)
+        ent = by_cls.get((rel, cname))
+        nmeth += 1
+        if ent is not None:
+            static = set(ent[1]["reads"].get(meth, ())) | set(ent[1]["alias_reads"].get(meth, ()))
+            dyn = meth in ent[1]["dyn_reads"]
+        else:
+            static, dyn = folded.get(meth, set()), False
+        for a in sorted(attrs):
+            nreads += 1
+            if (a.startswith("__") and a.endswith("__")) or dyn:
+                continue
+            a2 = a
+            if a not in static and a2 not in static:
+                bad.append(f"{cname}.{meth}: self.{a}")
+    ctx.count("dynamic_reads_checked", nreads)
+    ctx.notes["read_sets"] = {"methods_traced": nmeth, "dynamic_reads": nreads, "not_in_static_table": bad[:20]}
+    if bad:
+        ctx.broke("correspondence", "read-table", "attribute loads observed on real instances (by a __getattribute__ spy) that "
+                  "the static read table of the translator does not list: " + "; ".join(bad[:12]))
+
+
+def _check_torch_names(ctx):
+    """`torchModuleNames` of Props/C18.lean (read categories (d)): each must really be an attribute of a plain torch
+    module — otherwise the list would hide a genuine instance attribute of the package."""
+    import torch
+    src = open(PROPS).read()
+    m = re.search(r"def torchModuleNames : List Nat :=\s*\[(.*?)\]", src, re.S)
+    if not m:
+        ctx.broke("correspondence", "torch-module-names", "list not found in Props/C18.lean")
+        return
+    probe = torch.nn.Module()
+    missing = [n for n in re.findall(r"aid_(\w+)", m.group(1)) if not hasattr(probe, n)]
+    ctx.notes["torch_module_names"] = len(re.findall(r"aid_(\w+)", m.group(1)))
+    if missing:
+        ctx.broke("correspondence", "torch-module-names", f"not attributes of torch.nn.Module(): {missing}")
+
+
+# ====================================================================================================
 # generated table vs real instances, class coverage
 # ====================================================================================================
 
@@ -1753,7 +2248,31 @@ def correspondence(ctx, want_driver=True):
     T = C.Timer()
     plan = _plan(ctx)
     built, ok_fam = set(), set()
+    import time
+    c0 = time.process_time()
+    sspy = SettingsSpy()
+    sspy.__enter__()
+    try:
+        _main_loop(ctx, plan, built, ok_fam, covered, exact_cov, unknown, fam_time, driver, T, sspy)
+    finally:
+        sspy.__exit__(None, None, None)
+    t_main, c_main = T(), time.process_time()
+    _shared_args_phase(ctx, plan)
+    t_shared, c_shared = T(), time.process_time()
+    _used_under_phase(ctx, plan, sspy.seen)
+    ctx.notes["phase_seconds"] = {"main": round(t_main, 1), "shared_args+read_spy": round(t_shared - t_main, 1),
+                                  "used_under": round(T() - t_shared, 1)}
+    ctx.notes["phase_cpu_seconds"] = {"main": round(c_main - c0, 1), "shared_args+read_spy": round(c_shared - c_main, 1),
+                                      "used_under": round(time.process_time() - c_shared, 1)}
+    _check_torch_names(ctx)
+    _lazy_rff(ctx)
+    _legacy_keys(ctx)
+    _finish(ctx, built, ok_fam, covered, exact_cov, unknown, fam_time, driver, want_driver)
+
+
+def _main_loop(ctx, plan, built, ok_fam, covered, exact_cov, unknown, fam_time, driver, T, sspy):
     for fname, seed, ops, mechs in plan:
+        sspy.current = fname
         t1 = T()
         if fname not in built:
             built.add(fname)
@@ -1776,8 +2295,84 @@ def correspondence(ctx, want_driver=True):
         if res is not None:
             ok_fam.add(fname)
         fam_time[fname] = fam_time.get(fname, 0.0) + (T() - t1)
-    _lazy_rff(ctx)
-    _legacy_keys(ctx)
+    sspy.current = None
+
+
+def _shared_args_phase(ctx, plan):
+    """every family once (the history of its divergence save point), under the `__getattribute__` spy"""
+    fams = {}
+    for fname, seed, ops, mechs in plan:
+        fams.setdefault(fname, seed)
+    canon = canonical_history(ctx.tier)
+    spy = ReadSpy()
+    with spy:
+        for fname, seed in fams.items():
+            try:
+                check_shared_args(ctx, fname, seed, canon[:2] if ctx.quick else canon[:4])
+            except Exception as e:
+                ctx.broke("correspondence", f"shared-args:{fname}", f"{type(e).__name__}: {e}\n" + traceback.format_exc()[-1000:])
+    check_read_sets(ctx, spy)
+
+
+def torch_float32():
+    import torch
+    return torch.float32
+
+
+def _used_under_phase(ctx, plan, seen):
+    """(setting, family) pairs: every setting that some family consults, with families that consult it"""
+    tr = _state.get("tr")
+    static = set(getattr(tr, "settings_anywhere", ()) or ())
+    rng = ctx.rng("used-under")
+    seeds = {}
+    for fname, seed, ops, mechs in plan:
+        seeds.setdefault(fname, seed)
+    readers = {}
+    for f, names in seen.items():
+        for n in names:
+            readers.setdefault(SETTING_PARTS.get(n, n), []).append(f)
+    canon = canonical_history(ctx.tier)
+    skipped, done = {}, {}
+    for sname in sorted(readers):
+        env = _env_factory(sname)
+        if env is None:
+            skipped[sname] = SETTINGS_SKIP.get(sname, "no non-default instance can be formed")
+            continue
+        fams = sorted(readers[sname])
+        k = (3 if sname in static else 1) if ctx.quick else (10 if sname in static else 4)
+        for fname in rng.sample(fams, min(k, len(fams))):
+            ops = canon[:4] if ctx.quick else rng.choice([canon[:2], canon[:4], canon[:6], canon[:4] + ["prior", "fwd"]])
+            try:
+                res = check_used_under(ctx, fname, seeds[fname], ops, sname, env)
+            except Exception as e:
+                ctx.broke("correspondence", f"used-under:{sname}:{fname}", f"{type(e).__name__}: {e}\n"
+                          + traceback.format_exc()[-1000:])
+                continue
+            if res is not None:
+                done.setdefault(sname, []).append(fname)
+    # another floating point type as environment (values after float32 use are exactly representable in float64)
+    fams = sorted(seeds)
+    kd = 6 if ctx.quick else 30
+    for fname in rng.sample(fams, min(kd, len(fams))):
+        try:
+            res = check_used_under(ctx, fname, seeds[fname], canon[:4], "dtype=float32", DtypeEnv(torch_float32()))
+        except Exception as e:
+            ctx.broke("correspondence", f"used-under:dtype:{fname}", f"{type(e).__name__}: {e}\n" + traceback.format_exc()[-1000:])
+            continue
+        if res is not None:
+            done.setdefault("dtype=float32", []).append(fname)
+    never = sorted(n for n in static if n not in readers)
+    ctx.notes["used_under"] = {"settings_consulted_dynamically": len(readers), "settings_read_statically": len(static),
+                               "exercised": {k_: len(v) for k_, v in sorted(done.items())},
+                               "skipped": skipped, "history_failed_under": _state.get("env_failed", {}),
+                               "static_but_consulted_by_no_family": never}
+    unexercised = sorted(n for n in readers if n in static and n not in done and n not in skipped)
+    if unexercised:
+        ctx.broke("correspondence", "used-under-coverage", "settings that the package reads lazily and some family consults, "
+                  f"but no used-under case completed for them: {unexercised}")
+
+
+def _finish(ctx, built, ok_fam, covered, exact_cov, unknown, fam_time, driver, want_driver):
     for fname in sorted(built - ok_fam):
         if not any(n == f"family:{fname}" for _, n, _ in ctx.broken):
             ctx.broke("correspondence", f"family:{fname}", "every save point of this family was discarded as ill-conditioned")
@@ -1918,6 +2513,13 @@ def replay(ctx, payload):
         n = len(ctx.failures)
         _legacy_keys(ctx)
         return len(ctx.failures) == n
+    if case.get("phase") == "used-under":
+        env = DtypeEnv(torch_float32()) if case["setting"] == "dtype=float32" else _env_factory(case["setting"])
+        fails = check_used_under(ctx, case["family"], case["seed"], case["ops"], case["setting"], env, report=False)
+        return fails is not None and (payload.get("key") not in fails if payload.get("key") else not fails)
+    if case.get("phase") == "shared-args":
+        fails = check_shared_args(ctx, case["family"], case["seed"], case["ops"], report=False)
+        return fails is not None and (payload.get("key") not in fails if payload.get("key") else not fails)
     mechs = MECHS if mech not in MECHS else (mech,)
     fails = check_savepoint(ctx, case["family"], case["seed"], case["ops"], mechs, driver=None, report=False)
     key = payload.get("key")
